@@ -5,7 +5,7 @@
 //! of the file.  `post_of` looks at the header after redb opened the image.  Which slot redb
 //! chose shows in the roots the new primary carries.
 
-use redb_decoder::{Options, decode_header, decode_slot};
+use redb_decoder::{Options, allocator_state_txn, decode_header, decode_slot};
 use serde_json::{Value as J, json};
 
 const CAP: u64 = 1 << 30;
@@ -32,7 +32,15 @@ pub fn pre_of(image: &[u8]) -> Option<(J, J)> {
     let len = image.len() as u64;
     let stored = l["layout_len"].as_u64().unwrap();
     let slots: Vec<J> = (0..2)
-        .map(|i| json!({"hok": h["slots"][i]["checksum_ok"], "txn": h["slots"][i]["txn"].as_u64().unwrap().min(CAP), "serv": servable(image, i)}))
+        .map(|i| {
+            // a saved allocator state that belongs to this slot's commit ("unknown": the system tree cannot be read)
+            let astate = match allocator_state_txn(image, &Options { page_size: 0 }, i) {
+                Ok(Some(t)) if Some(t) == h["slots"][i]["txn"].as_u64() => "yes",
+                Ok(_) => "no",
+                Err(_) => "unknown",
+            };
+            json!({"hok": h["slots"][i]["checksum_ok"], "txn": h["slots"][i]["txn"].as_u64().unwrap().min(CAP), "serv": servable(image, i), "astate": astate})
+        })
         .collect();
     let pre = json!({
         "rec": h["god"]["recovery_required"], "tpc": h["god"]["two_phase"], "primary": h["god"]["primary"].as_u64().unwrap() + 1,
